@@ -136,7 +136,7 @@ func (m *Merger) mergeTables(colDiff *diff.ColDiff, mergeChan chan<- *Merge, err
 		}
 	}
 	for _, obj := range merges {
-		if obj.Base != nil {
+		if obj.Base != nil && !resolver.colsChanged {
 			noChanges := true
 			for _, b := range obj.Others {
 				if !bytes.Equal(b, obj.Base) {
